@@ -25,7 +25,9 @@ def run(chk, orch):
                 "invariant, and the stream round trip must give the same verdicts; one evaluation = one multiset. (P) pipeline: "
                 "workloads with paralogous genes and secondary alignments presented in different orders (chromosome length "
                 "ranking, BAM file order, tie order inside a BAM) x memory mode x threads x schedules; all outputs must be equal "
-                "as multisets of lines across orders, and the counts oracle bounds each read's total contribution by 1")
+                "as multisets of lines across orders (GTF lines without their exon_id attribute: which number a novel exon gets "
+                "follows the printing order of the models and is not part of 'the set of retained alignments'), and the counts "
+                "oracle bounds each read's total contribution by 1")
     chk.assumptions = ["machine-level records are built like BasicReadAssignment.deserialize builds them",
                        "at most one primary alignment per read (as in a BAM file)"]
     tol = tolerated_kinds(chk)
@@ -151,8 +153,8 @@ def run(chk, orch):
             if r["exit"] != 0:
                 bad = ["<exit %s %s>" % (r["exit"], r.get("failure_site"))]
             else:
-                for name, dg in g["sorted_digests"].items():
-                    if r["sorted_digests"].get(name) != dg:
+                for name, dg in g["sorted_digests_no_exon_id"].items():
+                    if r["sorted_digests_no_exon_id"].get(name) != dg:
                         bad.append(name)
             if bad:
                 gs, go, gc, ga = variants[(k, 0)]
@@ -174,7 +176,7 @@ def replay(doc, orch):
         i2 = orch.submit(0, doc["run"]["fn"], doc["run"]["args"])
         out = orch.run_all()
         g, r = out[i1][1]["res"], out[i2][1]["res"]
-        bad = [n for n, d in g["sorted_digests"].items() if "_grouped_" not in n and r["sorted_digests"].get(n) != d]
+        bad = [n for n, d in g["sorted_digests_no_exon_id"].items() if "_grouped_" not in n and r["sorted_digests_no_exon_id"].get(n) != d]
         if r["exit"] != 0:
             bad.append("exit %s" % r["exit"])
         return bool(bad), "differs as multisets: %s" % bad
